@@ -2,6 +2,7 @@ package iolib
 
 import (
 	"bufio"
+	"bytes"
 	"errors"
 	"fmt"
 	"io"
@@ -226,6 +227,17 @@ func (f *File) Read(n int) (rt.Value, error) {
 			return rt.NilValue, err
 		}
 	}
+	if n > maxReadPrealloc {
+		// The file may well be much shorter than n bytes (n can be as big as
+		// math.maxinteger), so do not allocate n bytes up front but let the
+		// buffer grow as data is read.
+		var buf bytes.Buffer
+		m, err := io.CopyN(&buf, f.reader, int64(n))
+		if err == nil || (err == io.EOF && m > 0) {
+			return rt.StringValue(buf.String()), nil
+		}
+		return rt.NilValue, err
+	}
 	b := make([]byte, n)
 	n, err := io.ReadFull(f.reader, b)
 	if err == nil || err == io.ErrUnexpectedEOF {
@@ -233,6 +245,10 @@ func (f *File) Read(n int) (rt.Value, error) {
 	}
 	return rt.NilValue, err
 }
+
+// Read(n) allocates a buffer of n bytes before reading if n is at most
+// maxReadPrealloc.
+const maxReadPrealloc = 1 << 16
 
 // ReadAll attempts to read the whole file and return a lua string containing
 // it.
